@@ -183,6 +183,11 @@ def L(s: Sym) -> Sym:
     if k == "call":
         name = dotted(s[1])
         base = name.split(".")[-1]
+        if base == "join" and s[1][0] == "a" and s[1][1][0] == "c" and isinstance(s[1][1][1], (bytes, str)) and len(s[2]) == 1 and s[2][0][0] in ("tuple", "list"):
+            # sep.join((a, b, c)) is len(a) + len(b) + len(c) + (n - 1) * len(sep)
+            parts = list(s[2][0][1])
+            extra = len(s[1][1][1]) * max(0, len(parts) - 1)
+            return _sum([L(x) for x in parts] + ([C(extra)] if extra else []))
         if base == "to_bytes" and s[1][0] == "a" and s[2] and s[2][0][0] == "c" and isinstance(s[2][0][1], int):
             return _sum([C(s[2][0][1])])          # int.to_bytes(k, ...) is k bytes long
         if name in WRITER_TO_SIZER:
